@@ -22,6 +22,8 @@ import (
 
 	"github.com/LiskHQ/lisk-engine/pkg/blockchain"
 	"github.com/LiskHQ/lisk-engine/pkg/codec"
+	"github.com/LiskHQ/lisk-engine/pkg/consensus"
+	"github.com/LiskHQ/lisk-engine/pkg/consensus/certificate"
 	csync "github.com/LiskHQ/lisk-engine/pkg/consensus/sync"
 	"github.com/LiskHQ/lisk-engine/pkg/p2p"
 
@@ -44,7 +46,12 @@ import (
 // Case: S = "req" | "res" (B[0] = the raw bytes written to a stream of the request / response protocol) or
 // "res-pending" (the victim itself asks the attacker for procedure U[1] mod 3; while the request is pending the attacker
 // sends U[0] forged responses carrying the pending request's ID, procedure name B[2] (empty = the requested one), data
-// B[0], error B[1], then - after U[2] ms - the honest answer). 32-byte markers wireIDMarker(k) inside B[0] are replaced by the ID of the victim's block k.
+// B[0], error B[1] - one after the other, or all at once if U[3] != 0 -, then - after U[2] ms - the honest answer) or "gossip" (the attacker publishes a payload on the
+// GossipSub topic B[1] through Connection.Publish, i.e. inside a valid p2p.Message envelope: U[0] = 0: payload B[0];
+// 1: a valid candidate block on the victim's tip; 2: a block of the victim's chain; 3: the genesis block; 4: a valid
+// EventPostSingleCommits - each replaced by its U[1]-th structural mutant if U[1] > 0) or "gossip-many-topics" (a peer
+// announcing 40 subscriptions, more than the victim's filter admits). 32-byte markers wireIDMarker(k) inside B[0] are
+// replaced by the ID of the victim's block k.
 //
 // Oracle per case: (1) the child is alive; (2) no goroutine stays inside onRequest/onResponse (checked only when the
 // expected effect is not seen: same goroutine, same place, twice, 8 s apart = positive evidence); (3) afterwards the
@@ -52,8 +59,10 @@ import (
 // three fresh peers fail while an untouched control node next to it answers = violation, otherwise no verdict.
 // The effect that proves the envelope was processed is observed through the victim's own state: an undecodable
 // envelope or an unregistered procedure name must take the sender's IP to the ban threshold (that is how the engine
-// rejects them), a registered name must be counted by the rate limiter. An effect not seen within the wait is NOT a
-// violation (class */unobserved, no verdict, never non-trivial).
+// rejects them), a registered name must be counted by the rate limiter; for gossip a fresh valid block published by the
+// same peer right after the hostile payload must show up in the victim's EventNetworkBlockNew (one pubsub stream per
+// peer pair, in order: the hostile message was delivered and went through the topic validator in a pubsub goroutine).
+// An effect not seen within the wait is NOT a violation (class */unobserved, no verdict, never non-trivial).
 
 const (
 	wireTarget = "p2p.wire"
@@ -272,6 +281,11 @@ func wireRun(c *Case) outcome {
 		if !r.Passed {
 			c.fromOK = false // an envelope whose effect was not seen is no evidence
 		}
+		if strings.HasPrefix(r.Viol, "victim-") || strings.HasPrefix(r.Viol, "handler-") {
+			// the verdict is in; this lab has a wedged goroutine, later cases get a new one
+			l.kill()
+			dropLab(l)
+		}
 		return outcome{class: r.Class, passed: r.Passed, viol: r.Viol}
 	case <-l.dead:
 		return died()
@@ -285,7 +299,11 @@ func wireRun(c *Case) outcome {
 			l.kill()
 		}
 		dropLab(l)
-		evid.R.Inconclusive("p2p.wire: lab process did not answer within %v; goroutines:\n%s", wireBudget, l.tailText(80))
+		dump := l.tailText(60)
+		if len(dump) > 3000 {
+			dump = dump[:3000] + " ..."
+		}
+		evid.R.Inconclusive("p2p.wire: lab process did not answer within %v; start of its goroutine dump:\n%s", wireBudget, dump)
 		return outcome{class: "lab-timeout"}
 	}
 }
@@ -308,21 +326,28 @@ type wirePeer struct {
 }
 
 type wireWorld struct {
-	victim   *node.Node
-	vid      p2p.PeerID
-	vinfo    *p2p.AddrInfo
-	ids      [][]byte
-	tipBytes []byte
-	tipID    []byte
-	control  *p2p.Connection
-	cinfo    *p2p.AddrInfo
-	prober   *wirePeer
-	probes   int
-	attacker *wirePeer
-	seq      int
-	reg      map[string]bool
-	lat      []time.Duration
+	victim     *node.Node
+	vid        p2p.PeerID
+	vinfo      *p2p.AddrInfo
+	ids        [][]byte
+	tipBytes   []byte
+	tipID      []byte
+	control    *p2p.Connection
+	cinfo      *p2p.AddrInfo
+	prober     *wirePeer
+	probes     int
+	attacker   *wirePeer
+	seq        int
+	reg        map[string]bool
+	lat        []time.Duration
+	netCh      chan interface{} // EventNetworkBlockNew of the victim: a gossiped block passed the validator and reached the handler
+	gossiper   *wirePeer
+	salt       uint32
+	commits    []byte
+	manyTopics bool
 }
+
+var wireTopics = []string{consensus.P2PEventPostBlock, consensus.P2PEventPostSingleCommits, "noSuchTopic", "POSTBLOCK", "postblock", "postBlock ", ""}
 
 func addrInfoOf(c *p2p.Connection) (*p2p.AddrInfo, error) {
 	addrs, err := c.MultiAddress()
@@ -355,6 +380,16 @@ func newWireWorld() (*wireWorld, error) {
 		w.ids = append(w.ids, b.Header.ID)
 	}
 	w.tipBytes, w.tipID = v.Tip().Encode(), v.Tip().Header.ID
+	w.netCh = make(chan interface{}, 1<<14)
+	v.Exec.VerifOn(consensus.EventNetworkBlockNew, w.netCh)
+	if _, pc, cert := v.Heights(); pc > cert {
+		if hd, err := v.Chain.DataAccess().GetBlockHeaderByHeight(cert + 1); err == nil {
+			if p, err := v.CurrentParams(cert + 1); err == nil && len(p.Idx) > 0 {
+				k := node.Keys()[p.Idx[0]]
+				w.commits = (&consensus.EventPostSingleCommits{SingleCommits: []*certificate.SingleCommit{certificate.NewSingleCommit(hd, k.Addr, node.ChainID, k.BLSPriv)}}).Encode()
+			}
+		}
+	}
 	w.vid = v.Conn.ID()
 	if w.vinfo, err = addrInfoOf(v.Conn); err != nil {
 		return nil, err
@@ -395,6 +430,19 @@ func (w *wireWorld) newPeer(to *p2p.AddrInfo, toVictim bool) (*wirePeer, error) 
 				}
 				rw.Write(w.tipBytes)
 			}); err != nil {
+				return nil, err
+			}
+		}
+		topics := wireTopics
+		if w.manyTopics {
+			topics = nil
+			for i := 0; i < 40; i++ {
+				topics = append(topics, fmt.Sprintf("topic%02d", i))
+			}
+			topics = append(topics, consensus.P2PEventPostBlock)
+		}
+		for _, tp := range topics {
+			if err := p.conn.RegisterEventHandler(tp, func(*p2p.Event) {}, nil); err != nil {
 				return nil, err
 			}
 		}
@@ -532,13 +580,17 @@ func (w *wireWorld) probe() (viol, incon string) {
 		r1 := w.prober.conn.RequestFrom(ctx, w.vid, csync.RPCEndpointGetLastBlock, nil)
 		var r2 p2p.Response
 		if r1.Error() == nil {
-			r2 = w.victim.Conn.RequestFrom(ctx, w.prober.id, csync.RPCEndpointGetLastBlock, nil)
+			var stuck string
+			if r2, stuck = w.victimRequest(w.prober.id, csync.RPCEndpointGetLastBlock, 8*time.Second); stuck != "" {
+				cancel()
+				return stuck, ""
+			}
 		}
 		cancel()
 		switch {
 		case r1.Error() != nil:
 			fails = append(fails, fmt.Sprintf("getLastBlock asked by a fresh honest peer: %v", r1.Error()))
-		case !bytes.Equal(r1.Data(), w.tipBytes):
+		case !bytes.Equal(r1.Data(), w.tipBytes) && !bytes.Equal(r1.Data(), w.victim.Tip().Encode()):
 			return fmt.Sprintf("victim-wrong-answer: getLastBlock asked by an honest peer returned %d bytes that are not the victim's tip block", len(r1.Data())), ""
 		case r2.Error() != nil:
 			fails = append(fails, fmt.Sprintf("the victim's own request to an honest peer: %v", r2.Error()))
@@ -574,6 +626,37 @@ func (w *wireWorld) probe() (viol, incon string) {
 		strings.Join(fails, "; "), len(w.lat), med, p2pGoroutines(30)), ""
 }
 
+// victimRequest lets the victim itself ask a peer. RequestFrom waits on its context, so a call that has not returned
+// 20 s after the context expired is not waiting for the network: it is stuck inside the engine (stack attached).
+func (w *wireWorld) victimRequest(to p2p.PeerID, proc string, d time.Duration) (p2p.Response, string) {
+	ch := make(chan p2p.Response, 1)
+	ctx, cancel := context.WithTimeout(context.Background(), d)
+	defer cancel()
+	go func() { ch <- w.victim.Conn.RequestFrom(ctx, to, proc, nil) }()
+	select {
+	case r := <-ch:
+		return r, ""
+	case <-time.After(d + 20*time.Second):
+	}
+	buf := make([]byte, 4<<20)
+	buf = buf[:runtime.Stack(buf, true)]
+	st := ""
+	for _, g := range strings.Split(string(buf), "\n\n") {
+		if strings.Contains(g, "victimRequest") && strings.Contains(g, "lisk-engine/pkg/p2p.") {
+			st = g
+		}
+	}
+	if st == "" {
+		select {
+		case r := <-ch:
+			return r, ""
+		default:
+		}
+		return p2p.Response{}, ""
+	}
+	return p2p.Response{}, fmt.Sprintf("victim-stuck: a request of the victim itself (%s, context of %v) has not returned 20 s after its context expired - the call is blocked inside the engine:\n%s\nother p2p goroutines:\n%s", proc, d, st, p2pGoroutines(12))
+}
+
 func (w *wireWorld) subst(b []byte) []byte {
 	if !bytes.Contains(b, []byte("\xc0\x9fC09-victim-block-id-")) {
 		return b
@@ -597,6 +680,8 @@ func (w *wireWorld) do(c *Case) (res wireResult) {
 		return w.doRaw(c)
 	case "res-pending":
 		return w.doPending(c)
+	case "gossip", "gossip-many-topics":
+		return w.doGossip(c)
 	}
 	return wireResult{Class: "harness-unknown-kind", Viol: "harness: unknown case kind " + c.S}
 }
@@ -698,11 +783,22 @@ func (w *wireWorld) doPending(c *Case) wireResult {
 			name = r.Procedure
 		}
 		env := wireEnvelope(r.ID, name, w.subst(c.b(0)), true, string(c.b(1)), true)
+		var wg sync.WaitGroup
 		for i := 0; i < dup; i++ {
-			ctx, cancel := context.WithTimeout(context.Background(), 5*time.Second)
-			a.conn.VerifRawSend(ctx, w.vid, false, env)
-			cancel()
+			send := func() {
+				defer wg.Done()
+				ctx, cancel := context.WithTimeout(context.Background(), 5*time.Second)
+				a.conn.VerifRawSend(ctx, w.vid, false, env)
+				cancel()
+			}
+			wg.Add(1)
+			if c.u(3) != 0 {
+				go send() // all copies at once: several responses for one pending request inside the same instant
+			} else {
+				send()
+			}
 		}
+		wg.Wait()
 		// without a pause the honest answer usually overtakes the forged ones (they become late duplicates); with one the
 		// first forged response is what the victim's caller gets
 		time.Sleep(time.Duration(delay) * time.Millisecond)
@@ -710,13 +806,24 @@ func (w *wireWorld) doPending(c *Case) wireResult {
 	}
 	a.mu.Unlock()
 	a.sends += dup + 1
-	ctx, cancel := context.WithTimeout(context.Background(), 4*time.Second)
-	r := w.victim.Conn.RequestFrom(ctx, a.id, asked, nil)
-	cancel()
+	if c.u(3) != 0 {
+		// widen the window in which several responses meet one pending entry: every delivery (resMu held) takes 3 ms, so the
+		// copies queue up on the mutex ahead of the requester that wants to remove its entry
+		p2p.VerifSetSched(func(point, _ string) {
+			if point == p2p.VerifPointDeliver {
+				time.Sleep(3 * time.Millisecond)
+			}
+		})
+	}
+	r, stuck := w.victimRequest(a.id, asked, 4*time.Second)
+	p2p.VerifSetSched(nil)
 	a.mu.Lock()
 	calls := a.calls
 	a.onReq = nil
 	a.mu.Unlock()
+	if stuck != "" {
+		return wireResult{Class: "res-pending/stuck", Viol: stuck}
+	}
 	cls := "answered-honest"
 	switch {
 	case calls == 0:
@@ -732,6 +839,131 @@ func (w *wireWorld) doPending(c *Case) wireResult {
 		w.retire(&w.attacker)
 	}
 	return wireResult{Class: "res-pending/" + cls, Passed: true}
+}
+
+// sentinel publishes fresh valid candidate blocks from g until one of them shows up in the victim's EventNetworkBlockNew.
+func (w *wireWorld) sentinel(g *wirePeer, d time.Duration) bool {
+	end := time.Now().Add(d)
+	for time.Now().Before(end) {
+		w.salt++
+		b, err := w.victim.Build(node.Spec{Script: node.Script{Salt: 1000 + w.salt}})
+		if err != nil {
+			return false
+		}
+		ctx, cancel := context.WithTimeout(context.Background(), 5*time.Second)
+		err = g.conn.Publish(ctx, consensus.P2PEventPostBlock, b.Encode())
+		cancel()
+		if err != nil {
+			time.Sleep(50 * time.Millisecond)
+			continue
+		}
+		until := time.Now().Add(400 * time.Millisecond)
+		for time.Now().Before(until) {
+			select {
+			case m := <-w.netCh:
+				if ev, ok := m.(*consensus.EventNetworkBlockNewMessage); ok && ev.Block != nil && bytes.Equal(ev.Block.Header.ID, b.Header.ID) {
+					return true
+				}
+			case <-time.After(5 * time.Millisecond):
+			}
+		}
+	}
+	return false
+}
+
+func (w *wireWorld) gossipPayload(c *Case) ([]byte, error) {
+	var base []byte
+	switch c.u(0) {
+	case 0:
+		return w.subst(c.b(0)), nil
+	case 1:
+		w.salt++
+		b, err := w.victim.Build(node.Spec{Script: node.Script{Salt: 5000 + w.salt}})
+		if err != nil {
+			return nil, err
+		}
+		base = b.Encode()
+	case 2:
+		b, err := w.victim.Chain.DataAccess().GetBlockByHeight(3)
+		if err != nil {
+			return nil, err
+		}
+		base = b.Encode()
+	case 3:
+		base = w.victim.Genesis.Encode()
+	default:
+		if base = w.commits; base == nil {
+			return nil, fmt.Errorf("no certifiable height on the victim's chain")
+		}
+	}
+	if c.u(1) == 0 {
+		return base, nil
+	}
+	var all []mutant
+	allMutants(base, nil, 384, 0, func(m mutant) { all = append(all, m) })
+	return all[int((c.u(1)-1)%uint64(len(all)))].data, nil
+}
+
+func (w *wireWorld) doGossip(c *Case) wireResult {
+	for len(w.netCh) > 0 {
+		<-w.netCh
+	}
+	if c.S == "gossip-many-topics" {
+		w.manyTopics = true
+		p, err := w.newPeer(w.vinfo, true)
+		w.manyTopics = false
+		if err != nil {
+			return wireResult{Class: c.S + "/no-attacker", Incon: "cannot connect an attacker to the victim: " + err.Error()}
+		}
+		seen := w.sentinel(p, 1500*time.Millisecond)
+		go p.conn.Stop()
+		// whether the victim still takes this peer's publications is the filter's business; what counts is that it survives
+		return wireResult{Class: c.S + ifs(seen, "/still-heard", "/not-heard"), Passed: true}
+	}
+	topic := string(c.b(1))
+	payload, err := w.gossipPayload(c)
+	if err != nil {
+		return wireResult{Class: "gossip/no-payload", Info: "gossip-no-payload"}
+	}
+	if g := w.gossiper; g != nil && (g.sends >= 2 || !w.connectedToVictim(g)) {
+		w.retire(&w.gossiper)
+	}
+	if w.gossiper == nil {
+		g, err := w.newPeer(w.vinfo, true)
+		if err != nil {
+			return wireResult{Class: "gossip/no-attacker", Incon: "cannot connect an attacker to the victim: " + err.Error()}
+		}
+		// the channel is up once a valid block gets through (subscriptions exchanged)
+		if !w.sentinel(g, 10*time.Second) {
+			go g.conn.Stop()
+			return wireResult{Class: "gossip/channel-not-up", Info: "effect-unobserved"}
+		}
+		w.gossiper = g
+	}
+	g := w.gossiper
+	g.sends++
+	known := topic == consensus.P2PEventPostBlock || topic == consensus.P2PEventPostSingleCommits
+	cls := "gossip/" + ifs(known, topic, "unknown-topic")
+	ctx, cancel := context.WithTimeout(context.Background(), 10*time.Second)
+	err = g.conn.Publish(ctx, topic, payload)
+	cancel()
+	if err != nil {
+		// not sendable through the engine's own Publish (topic not registered on the sender, message above pubsub's size limit)
+		return wireResult{Class: cls + "/publish-refused", Info: "gossip-publish-refused"}
+	}
+	if !w.sentinel(g, 8*time.Second) {
+		w.retire(&w.gossiper)
+		return wireResult{Class: cls + "/unobserved", Info: "effect-unobserved"}
+	}
+	// label only, after the fact: what the topic validator says about this payload
+	verdict := ""
+	switch topic {
+	case consensus.P2PEventPostBlock:
+		verdict = "/" + valClass(w.victim.Exec.VerifBlockValidator(&p2p.Message{Data: payload}))
+	case consensus.P2PEventPostSingleCommits:
+		verdict = "/" + valClass(w.victim.Exec.VerifSingleCommitValidator(&p2p.Message{Data: payload}))
+	}
+	return wireResult{Class: cls + verdict + "/delivered", Passed: true}
 }
 
 // TestWireChild is the lab process (started by the p2p.wire target, never by the driver).
@@ -909,6 +1141,38 @@ func TestWireEnvelopes(t *testing.T) {
 			run(&Case{Target: wireTarget, S: "res-pending", B: []hexb{p.data, []byte(p.err), []byte(p.name)}, U: []uint64{uint64(p.dup), uint64(i), delay}, Gen: ifs(delay == 0, "wire-pending-late-duplicates", "wire-pending-forged-first"), NMut: 1, fromOK: true})
 		}
 	}
+	for i, dup := range []int{2, 8, 30} {
+		for rep := 0; rep < ifi(evid.Thorough(), 6, 2); rep++ {
+			run(&Case{Target: wireTarget, S: "res-pending", B: []hexb{[]byte("burst"), nil, nil}, U: []uint64{uint64(dup), uint64(i + rep), 20, 1}, Gen: "wire-pending-burst", NMut: 1, fromOK: true})
+		}
+	}
+	// gossip: hostile payloads inside valid Message envelopes on subscribed and unknown topics
+	gcase := func(topic string, base, mut uint64, lit []byte, gen string) {
+		run(&Case{Target: wireTarget, S: "gossip", B: []hexb{lit, []byte(topic)}, U: []uint64{base, mut}, Gen: gen, NMut: 1, fromOK: true})
+	}
+	gcase(consensus.P2PEventPostBlock, 1, 0, nil, "wire-gossip-valid")
+	nmut := uint64(evid.Scale(ifi(evid.Thorough(), 40, 7)))
+	for base := uint64(1); base <= 4; base++ {
+		topic := consensus.P2PEventPostBlock
+		if base == 4 {
+			topic = consensus.P2PEventPostSingleCommits
+		}
+		gcase(topic, base, 0, nil, "wire-gossip-base")
+		for i := uint64(0); i < nmut; i++ {
+			gcase(topic, base, 1+uint64(sh)+i*7919, nil, "wire-gossip-mutant")
+		}
+	}
+	gcase(consensus.P2PEventPostSingleCommits, 1, 0, nil, "wire-gossip-wrong-topic")
+	gcase(consensus.P2PEventPostBlock, 4, 0, nil, "wire-gossip-wrong-topic")
+	for _, lit := range [][]byte{{}, {0x0a}, {0x0a, 0x03, 0x0a, 0x01, 0x60}, bytes.Repeat([]byte{0x0a, 0x00}, 20000), make([]byte, 300000), make([]byte, 2<<20)} {
+		gcase(consensus.P2PEventPostBlock, 0, 0, lit, "wire-gossip-literal")
+		gcase(consensus.P2PEventPostSingleCommits, 0, 0, lit, "wire-gossip-literal")
+	}
+	for _, tp := range wireTopics[2:] {
+		gcase(tp, 1, 0, nil, "wire-gossip-unknown-topic")
+	}
+	gcase("topicTheSenderDoesNotHave", 1, 0, nil, "wire-gossip-unknown-topic")
+	run(&Case{Target: wireTarget, S: "gossip-many-topics", Gen: "wire-gossip-many-topics", NMut: 1, fromOK: true})
 	var ks []string
 	for k := range classes {
 		ks = append(ks, k)
@@ -919,7 +1183,7 @@ func TestWireEnvelopes(t *testing.T) {
 	for _, k := range ks {
 		fmt.Fprintf(&sb, "%s=%d ", k, classes[k])
 		total += classes[k]
-		if strings.HasSuffix(k, "unobserved") || strings.HasSuffix(k, "send-failed") || strings.HasPrefix(k, "lab-") || strings.HasSuffix(k, "no-attacker") {
+		if strings.HasSuffix(k, "unobserved") || strings.HasSuffix(k, "send-failed") || strings.HasPrefix(k, "lab-") || strings.HasSuffix(k, "no-attacker") || strings.HasSuffix(k, "channel-not-up") {
 			unobs += classes[k]
 		}
 	}
